@@ -149,7 +149,7 @@ def gen(rng, tier):
             c_ = S.rand_volume(rng, maxp=3, max_interior=2) if kind_ == 'volume' else S.rand_surface(rng, maxp=4, max_interior=3)
             ds_ = S.dirs(c_)
             p, kv, n_ = ds_[i]
-            if any(q_[0] >= p + 2 for j_, q_ in enumerate(ds_) if j_ != i) and n_ > p + 1:
+            if all(q_[0] >= p + 2 for j_, q_ in enumerate(ds_) if j_ != i) and n_ > p + 1:      # EVERY other direction (whichever degree is mixed in)
                 d = c_
                 break
         if d is None:
